@@ -1,11 +1,11 @@
 #!/bin/bash
 # Shake-out: every quick check under other seeds, outputs redirected away from evidence/ and replays/.
-#   tools/seed_sweep.sh <tier> <seed> [seed ...]
+#   tools/seed_sweep.sh <tier> <seed> [seed ...]        (PROPS="C02 C01 ..." restricts the checks)
 tier=$1; shift
 cd "$(dirname "$(realpath "$0")")/.."
 for seed in "$@"; do
-  for p in C20 C02 C01 C18 C19 C12 C07 C14 C13 C06; do
-    VERIF_OUT_DIR=$PWD/shake/s$seed VERIF_SEED=$seed ./check $p --tier $tier 2>&1 | grep -E "^OK|VIOLATION|HARNESS|KNOWN|oracle=" | cut -c1-260 | sed "s/^/[seed $seed $p] /"
+  for p in ${PROPS:-C20 C02 C01 C18 C19 C12 C07 C14 C13 C06}; do
+    VERIF_OUT_DIR=$PWD/shake/s$seed VERIF_SEED=$seed ./check $p --tier $tier 2>&1 | grep -E "^OK|VIOLATION|HARNESS|KNOWN|oracle=|^NOTE: (case|[0-9])|stopped early" | cut -c1-260 | sed "s/^/[seed $seed $p] /"
   done
 done
 echo SWEEP-DONE
